@@ -912,7 +912,24 @@ class AdjointHarness(MultiplyOpHarness):
         for j in range(k):
             if layout[j] in ("spin", "fermion"):
                 eng.assume(z3.And(p[j] >= -1, p[j] <= 1, n[j] >= 0, n[j] <= 1))
-        coef = Coef(lambda occ: F(*occ), "f")
+        class ACoef(Coef):
+            """the term's coefficient: its modulus-sign part is the real function F (amplitude relation below); its complex phase is tracked symbolically by the
+            number of conjugations applied (a coefficient may be complex without containing a literal imaginary unit: a plain Symbol, conjugate(g), f(g))"""
+            conj = False
+
+            def m_getattr(s, e, name):
+                if name in ("adjoint", "conjugate"):
+                    def adj(e2):
+                        c = ACoef(s.fn, s.label)
+                        c.conj = not s.conj
+                        return c
+                    return Builtin(name, adj)
+                if name in ("has", "is_real", "is_extended_real", "is_commutative", "free_symbols", "atoms", "is_number"):
+                    # syntactic / assumption queries cannot decide whether the coefficient is real for every value of its symbols
+                    q = e.fresh(f"coefficient_query_{name}", "bool")
+                    return Builtin(name, lambda e2, *a: SB(q)) if name in ("has", "atoms") else SB(q)
+                return super().m_getattr(e, name)
+        coef = ACoef(lambda occ: F(*occ), "f")
         self.n = n
         binary_modes = [j for j in range(k) if layout[j] in ("spin", "fermion")]
         if len(binary_modes) >= 2:
@@ -955,7 +972,8 @@ class AdjointHarness(MultiplyOpHarness):
         def cls_call(e, o, terms, validate=True):
             built.append((o, terms))
             return NofResult(o, terms)
-        eng.globals.update({"type": Builtin("type", lambda e, x: Builtin("cls", cls_call))})
+        from contracts.formats import T as _T
+        eng.globals.update({"type": Builtin("type", lambda e, x: Builtin("cls", cls_call)), "sympy": Namespace("sympy", {"I": _T("I"), "S": Namespace("S", {"ImaginaryUnit": _T("I")})})})
         res = eng.call(Closure(node, Env(None, {}), "_eval_adjoint"), [Self()], {})
         ok = isinstance(res, NofResult) and len(built) == 1 and built[0][0] is ops and len(seen) == 1
         eng.oblige("returns-a-form-on-the-same-operators-with-one-term-per-term", z3.BoolVal(ok))
@@ -965,6 +983,8 @@ class AdjointHarness(MultiplyOpHarness):
         t = eng.as_seq(terms.items[0])
         newp = [zi(x) for x in eng.as_seq(t.items[0]).items]
         newcoef = Coef.lift(t.items[1])
+        eng.oblige("coefficient-conjugated-exactly-once", z3.BoolVal(isinstance(t.items[1], ACoef) and t.items[1].conj is True),
+                   detail="the adjoint conjugates every coefficient, whatever it looks like syntactically (complex symbols carry no literal I)")
         eng.oblige("powers-negated", z3.And(*[a == -b for a, b in zip(newp, p)]))
         # T : |n) -> |a)
         occ_a, amp_T = fock.apply_term(list(n), z3.RealVal(1), p, coef)
